@@ -94,7 +94,10 @@ def main(argv):
         if sentence == "0" and accepted and text != "":
             c.violation("C10:non-sentence-accepted", "filter %r is not a sentence of the grammar and is accepted" % text, rep)
             flagged = True
-        if pooled != "p1":
+        if pooled.startswith("pP:"):
+            c.violation("C10:panic-parse:" + pooled[3:], "zitiql.Parse(%r) panics in %s" % (text, pooled[3:]), rep)
+            flagged = True
+        elif pooled != "p1":
             c.violation("C10:pooled-state", "pooled and fresh lexer/parser instances disagree on syntax errors for %r" % text, rep)
             flagged = True
         if flagged:
